@@ -630,6 +630,17 @@ func (w *worker) conc(arg string) string {
 func workerMain() {
 	dir := os.Getenv("HXC13_DIR")
 	defer cleanupScratch() // the last worker standing removes the scratch tree when its parent goes away
+	ppid := os.Getppid()
+	go func() {
+		// a parent that was killed cannot clean up, and a wedged worker never sees the closed pipe
+		for {
+			time.Sleep(500 * time.Millisecond)
+			if os.Getppid() != ppid {
+				cleanupScratch()
+				os.Exit(0)
+			}
+		}
+	}()
 	if dir == "" {
 		fmt.Fprintln(os.Stderr, "worker: HXC13_DIR not set")
 		os.Exit(2)
